@@ -129,7 +129,7 @@ func (m *MTree) replace(s Site, n *refcbor.Item) {
 	}
 }
 
-var structFaultKinds = []string{"digitstr", "rewidth", "typeswap", "elemswap", "bucketmove", "dupkey", "nilswap", "tagwrap", "untag", "indef",
+var structFaultKinds = []string{"arr2bstr", "digitstr", "rewidth", "typeswap", "elemswap", "bucketmove", "dupkey", "nilswap", "tagwrap", "untag", "indef",
 	"keyreorder", "unprot-edit", "arity", "emptybstr", "intedit", "strgrow", "param-inject"}
 
 func pickSite(t *tape.Tape, sites []Site, ok func(Site) bool) (Site, bool) {
@@ -491,6 +491,29 @@ func StructFault(t *tape.Tape, in []byte, kind string) (out []byte, applied stri
 			n = refcbor.Int(int64(s.It.Arg%1000) + 1)
 		}
 		m.replace(s, n)
+	case "arr2bstr":
+		// an array of small unsigned integers replaced by the byte string of
+		// the same numbers (what a decoder hands to Go as []byte looks like a
+		// slice of numbers too)
+		s, found := pickSite(t, sites, func(s Site) bool {
+			if s.It.Major != refcbor.MArray || s.It.Indef || len(s.It.Elems) == 0 || len(s.It.Elems) > 16 {
+				return false
+			}
+			for _, e := range s.It.Elems {
+				if e.Major != refcbor.MUint || e.Arg > 255 {
+					return false
+				}
+			}
+			return true
+		})
+		if !found {
+			return nil, "", false
+		}
+		b := make([]byte, len(s.It.Elems))
+		for i, e := range s.It.Elems {
+			b[i] = byte(e.Arg)
+		}
+		m.replace(s, refcbor.Bstr(b))
 	case "digitstr":
 		// an integer respelt as the text string of its digits (or back):
 		// label 4 and label "4" are different labels, and a crit entry names
